@@ -26,6 +26,9 @@ CHECKS['C03'] = ('property-based testing: per-operand dtype/constant oracle from
 CHECKS['C08'] = ('property-based testing: shipped recipes x generated graphs with all interaction features, totality oracle (no exception)',
   'The six shipped recipes, loaded unchanged (calibrated when they need it), are applied to generated float models with shared inputs, concatenations of shared tensors, squares, unsupported ops in between, exported intermediates, re-used and de-duplicated constants; any exception from calibrate()/quantize() is a violation. One open known finding (a constant needed with different parameters is rejected) is matched structurally and counted.',
   'Input domain: converter normal form with model-wide unique names; generated graphs of <= 8 (quick) / 12 (thorough) nodes.', 'DESIGN.md 4 C08')
+CHECKS['C10'] = ('property-based testing: regex alphabet built from the model\'s tensor names; calibration key set vs reference resolution; missing-statistics exceptions; per-operand mode oracle',
+  'Generated single- and multi-signature models x rule sequences over the full regex alphabet (anchored, ";"-separated, prefixes, full names) x mostly static configs; every signature is calibrated in turn (resumed); the key set of the calibration result must equal the operand names of the ops the reference resolver selects under the quantization-side scope encoding, calibrate()/quantize() must not fail for missing statistics, and the ops quantized in the output must be exactly the selected ones (C03 oracle).',
+  'Reference resolver uses the library\'s support predicate; skip_checks excluded.', 'DESIGN.md 4 C10')
 NOT_APPLICABLE = {}
 
 def main():
